@@ -33,16 +33,27 @@ def return_levels(tree):
             params = [a.arg for a in n.args.posonlyargs + n.args.args]
             for idx, par in enumerate(params):
                 st = {par: ("alias", par)}
-                for r in ast.walk(n):
-                    if isinstance(r, ast.Assign) and len(r.targets) == 1 and isinstance(r.targets[0], ast.Name):
-                        lv = _level_of(r.value, st)
-                        if lv and r.targets[0].id != par:
-                            st[r.targets[0].id] = lv
-                for r in ast.walk(n):
-                    if isinstance(r, ast.Return) and r.value is not None:
-                        lv = _level_of(r.value, st)
-                        if lv:
-                            note(n.name, idx, lv[0])
+
+                def seq(stmts):
+                    # statements in source order: a re-binding (also of the parameter itself) holds from there on
+                    for r in stmts:
+                        if isinstance(r, ast.Assign) and len(r.targets) == 1 and isinstance(r.targets[0], ast.Name):
+                            lv = _level_of(r.value, st)
+                            if lv:
+                                st[r.targets[0].id] = lv
+                            else:
+                                st.pop(r.targets[0].id, None)
+                        elif isinstance(r, ast.Return) and r.value is not None:
+                            lv = _level_of(r.value, st)
+                            if lv:
+                                note(n.name, idx, lv[0])
+                        for blk in ("body", "orelse", "finalbody"):
+                            if hasattr(r, blk) and not isinstance(r, (ast.FunctionDef, ast.AsyncFunctionDef, ast.ClassDef)):
+                                seq(getattr(r, blk))
+                        for h in getattr(r, "handlers", []):
+                            seq(h.body)
+
+                seq(n.body)
         elif isinstance(n, ast.Assign) and len(n.targets) == 1 and isinstance(n.targets[0], ast.Name) and isinstance(n.value, (ast.Name, ast.Attribute)):
             fn = ast.unparse(n.value)
             if fn in SHALLOW_CALLS:
